@@ -176,7 +176,18 @@ func zzData(k int) (sig string, data []byte, nestsValue bool) {
 	inner := func() []byte { // a dynamic value: signature + body, of any scalar signature
 		sigs := []string{"i", "s", "c", "C", "w", "W", "I", "l", "L", "f", "d", "b"}
 		widths := []int{4, 0, 1, 1, 2, 2, 4, 8, 8, 4, 8, 1}
-		j := sym.Choose("inner-signature", len(sigs))
+		j := sym.Choose("inner-signature", len(sigs)+3)
+		switch j {
+		case len(sigs):
+			// a value of a value: the dynamic member's own signature is "m"
+			return zzCat(zzStr("m"), zzStr("I"), sym.Bytes("inner-inner-body", 4))
+		case len(sigs) + 1:
+			// a value of a value of a string
+			return zzCat(zzStr("m"), zzStr("m"), zzStr("s"), zzStr(sym.Str("iistr", 1)))
+		case len(sigs) + 2:
+			// a composite dynamic member
+			return zzCat(zzStr("[s]"), zzLE32(1), zzStr(sym.Str("ilist", 1)))
+		}
 		if j == 1 {
 			return zzCat(zzStr("s"), zzStr(sym.Str("istr", sym.Choose("istrlen", 2))))
 		}
